@@ -110,7 +110,10 @@ def build(spec: dict) -> Node:  # noqa: C901, PLR0911, PLR0912
             # a fixed widget (BigText) shown through a clipping Padding, which makes it a flow widget
             return Node(spec, "flow", urwid.Padding(kids[0].w, width="clip"), kids)
         if width == "clip" and (kids[0].kind != "flow" or kids[0].spec["w"] not in ("Text", "Edit", "Button", "CheckBox")):
-            width = "relative"
+            # (containers can be shown at their natural size too when everything in them can: the Padding then renders
+            # them with the size () and they never see a width)
+            if not (kids[0].kind == "flow" and kids[0].spec["w"] in ("Columns", "Pile") and "fixed" in kids[0].w.sizing()):
+                width = "relative"
         return Node(spec, kids[0].kind, urwid.Padding(kids[0].w, left=spec.get("left", 1), right=spec.get("right", 1), **({"width": "clip"} if width == "clip" else {})), kids)
     if t == "AttrMap":
         return Node(spec, kids[0].kind, urwid.AttrMap(kids[0].w, spec.get("attr", "a"), spec.get("fattr", "f")), kids)
@@ -686,6 +689,11 @@ class CacheEngine(Engine):
             if r < 0.70:
                 return {"w": "Padding", "width": "clip", "left": 0, "right": 0, "kids": [{"w": "BigText", "text": rng.choice(["12", "7", "12:0"]), "attr": rng.choice([None, None, "hl"]), "font": rng.randrange(2)}]}
             if r < 0.76:
+                if rng.random() < 0.2:
+                    # a row of content-sized columns shown at its natural size: rendered with the size () only
+                    budget[0] -= 2
+                    leafs = [rng.choice([{"w": "Text", "text": rng.choice(TEXTS[1:3]), "wrap": "space", "align": "left"}, {"w": "Button", "label": "ok"}, {"w": "CheckBox", "label": "c", "state": False, "mixed": False}, {"w": "Edit", "caption": "", "text": "ed", "multiline": False}]) for _ in range(rng.randint(1, 3))]
+                    return {"w": "Padding", "width": "clip", "left": rng.choice([0, 1]), "right": 0, "kids": [{"w": "Columns", "kids": leafs, "modes": ["pack", "pack", "pack"], "div": rng.randint(0, 1)}]}
                 pspec = {"w": "Padding", "kids": [self.gen_tree(rng, "flow", depth - 1, budget)], "left": rng.choice([0, 1, 2, 2, 9]), "right": rng.choice([0, 1, 2, 9]), "width": rng.choice(["relative", "relative", "clip"])}
                 if pspec["width"] == "clip" and rng.random() < 0.6:
                     pspec["kids"] = [{"w": "Text", "text": rng.choice(["", "", "ab"]), "wrap": "space", "align": "left"}]
